@@ -263,3 +263,99 @@ pub fn check_total(text: &str) -> Result<&'static str, Fail> {
     }
 }
 
+
+// ---------------------------------------------------------------------------------------------
+// C10: formatting
+
+use crate::ctx::hash64;
+use std::collections::HashSet;
+use varlink_parser::{Format, FormatColored};
+
+/// The colored renderings are compared with escape sequences on, whatever the terminal is.
+pub fn force_color() {
+    colored::control::set_override(true);
+}
+
+pub fn strip_ansi(s: &str) -> String {
+    let mut out = String::with_capacity(s.len());
+    let cs: Vec<char> = s.chars().collect();
+    let mut i = 0;
+    while i < cs.len() {
+        if cs[i] == '\u{1b}' && cs.get(i + 1) == Some(&'[') {
+            i += 2;
+            while i < cs.len() && !(cs[i].is_ascii_alphabetic()) {
+                i += 1;
+            }
+            i += 1;
+        } else {
+            out.push(cs[i]);
+            i += 1;
+        }
+    }
+    out
+}
+
+fn fmt_guard<T>(what: &str, w: usize, f: impl FnOnce() -> T + std::panic::UnwindSafe) -> Result<T, Fail> {
+    std::panic::catch_unwind(f).map_err(|p| Fail::new(format!("format/panic/{}", what), format!("{} panicked at width {}: {}", what, w, pt::panic_text(&p))))
+}
+
+/// Returns the distinct layouts seen.
+/// C10 oracle for one definition text over the given widths.
+pub fn check_format(text: &str, intended: Option<&Idl>, ws: &[usize]) -> Result<HashSet<u64>, Fail> {
+    let a = match IDL::try_from(text) {
+        Ok(a) => a,
+        Err(e) => {
+            return Err(Fail::new("HARNESS/format-input-rejected", format!("{}", e)));
+        }
+    };
+    let pa = from_parsed(&a);
+    if let Some(want) = intended {
+        if let Some(d) = diff_parsed(&split_kinds(want), &pa, true) {
+            return Err(Fail::new("HARNESS/format-input-misparsed", d));
+        }
+    }
+    let mut layouts = HashSet::new();
+    let disp = fmt_guard("to_string", 80, std::panic::AssertUnwindSafe(|| a.to_string()))?;
+    for &w in ws {
+        let t1 = fmt_guard("get_multiline", w, std::panic::AssertUnwindSafe(|| a.get_multiline(0, w)))?;
+        layouts.insert(hash64(&t1));
+        let b = match IDL::try_from(t1.as_str()) {
+            Ok(b) => b,
+            Err(e) => {
+                return Err(Fail::new(
+                    "format/output-does-not-parse",
+                    format!("width {}: the formatted text is rejected by the parser ({}) -- text: {:?}", w, e.to_string().lines().next().unwrap_or(""), t1),
+                ));
+            }
+        };
+        let pb = from_parsed(&b);
+        if let Some(d) = diff_parsed(&pa, &pb, true) {
+            let class = if d.contains("documentation") { "documentation" } else if d.contains("order of appearance") { "member-order" } else if d.contains("interface name") { "interface-name" } else { "definition" };
+            return Err(Fail::new(format!("format/definition-changed/{}", class), format!("width {}: {}", w, d)));
+        }
+        let t2 = fmt_guard("get_multiline", w, std::panic::AssertUnwindSafe(|| b.get_multiline(0, w)))?;
+        if t2 != t1 {
+            return Err(Fail::new(
+                "format/not-idempotent",
+                format!("width {}: formatting the formatted text changes it: {:?} -> {:?}", w, t1, t2),
+            ));
+        }
+        let c = fmt_guard("get_multiline_colored", w, std::panic::AssertUnwindSafe(|| a.get_multiline_colored(0, w)))?;
+        let stripped = strip_ansi(&c);
+        if stripped != t1 {
+            let at = stripped.chars().zip(t1.chars()).position(|(x, y)| x != y).unwrap_or(stripped.len().min(t1.len()));
+            return Err(Fail::new(
+                "format/colored-differs-from-plain",
+                format!("width {}: colored rendering without escape sequences differs from the plain one at char {}: {:?} vs {:?}", w, at, stripped, t1),
+            ));
+        }
+        if c == t1 {
+            return Err(Fail::new("format/colored-has-no-color", format!("width {}: colored rendering contains no escape sequence", w)));
+        }
+        if w == 80 && disp != t1 {
+            return Err(Fail::new("format/display-differs", "Display differs from get_multiline(0, 80)".to_string()));
+        }
+    }
+    Ok(layouts)
+}
+
